@@ -268,7 +268,79 @@ func runC36(c *eng.Ctx) {
 				fmt.Sprintf("sink operations reachable: {%s}, required: {%s}", got, w))
 		}
 	}
-	c.Expect("CASES", 8)
+	// the same decision in the replicator (weed filer.replicate): delete for (old, no new), create for (no old,
+	// new), nothing for (no old, no new), update — with delete + create as the fallback when the sink does not have
+	// the old entry — for (old, new)
+	if fn := c.NeedFunc("weed/replication", "(*Replicator).Replicate"); fn != nil {
+		del := eng.Find(fn, eng.PlainCallTo("sink.ReplicationSink).DeleteEntry"))
+		cre := eng.Find(fn, eng.PlainCallTo("sink.ReplicationSink).CreateEntry"))
+		upd := eng.Find(fn, eng.PlainCallTo("sink.ReplicationSink).UpdateEntry"))
+		present := func(field string, v ssa.Value) (matched, presentOnTrue bool) {
+			b, ok := v.(*ssa.BinOp)
+			if !ok || (b.Op != token.EQL && b.Op != token.NEQ) || !eng.IsNilConst(b.Y) || !eng.IsField(b.X, field) {
+				return false, false
+			}
+			return true, b.Op == token.NEQ
+		}
+		type pt struct{ old, new bool }
+		reach := func(p pt) string {
+			oracle := func(v ssa.Value) (bool, bool) {
+				if m, onTrue := present("EventNotification.OldEntry", v); m {
+					return p.old == onTrue, true
+				}
+				if m, onTrue := present("EventNotification.NewEntry", v); m {
+					return p.new == onTrue, true
+				}
+				if call, ok := v.(*ssa.Call); ok && eng.CalleeIs(call, "strings.HasPrefix") {
+					return true, true // inside the replicated directory (the outside case is the early skip)
+				}
+				if eng.IsField(v, "EventNotification.IsFromOtherCluster") {
+					return false, true
+				}
+				if call, ok := v.(*ssa.Call); ok && eng.CalleeIs(call, "sink.ReplicationSink).IsIncremental") {
+					return false, true
+				}
+				return false, false
+			}
+			cut := eng.CutUnder(fn, oracle)
+			var got []string
+			for _, in := range eng.ReachableInstrs(eng.Entry(fn), cut) {
+				switch {
+				case eng.AnyOf(del)(in):
+					got = append(got, "delete")
+				case eng.AnyOf(cre)(in):
+					got = append(got, "create")
+				case eng.AnyOf(upd)(in):
+					got = append(got, "update")
+				}
+			}
+			return strings.Join(uniq(sortStrings(got)), "+")
+		}
+		for p, w := range map[pt]string{{true, false}: "delete", {false, true}: "create", {false, false}: "", {true, true}: "create+delete+update"} {
+			got := reach(p)
+			c.Ob("CASES", fmt.Sprintf("%s old=%v new=%v", eng.FuncName(fn), p.old, p.new), got == w, fn.Pos(), fmt.Sprintf("sink operations reachable: {%s}, required: {%s}", got, w))
+		}
+		// the fallback (delete + create) runs only when the update did not find the entry at the sink
+		if len(upd) == 1 {
+			found := eng.PassEdges(fn, eng.BoolVal(true, func(v ssa.Value) bool { return v == eng.ResultOf(upd[0], 0) }))
+			var fallback []ssa.Instruction
+			for _, in := range append(append([]ssa.Instruction{}, del...), cre...) {
+				if eng.Dominates(upd[0], in) {
+					fallback = append(fallback, in)
+				}
+			}
+			okFb := len(found) > 0 && len(fallback) == 2
+			for _, fb := range fallback {
+				for _, st := range startsOf(found) {
+					if hit, _ := eng.Search(st, eng.Is(fb), eng.SearchOpt{}); hit != nil {
+						okFb = false
+					}
+				}
+			}
+			c.Ob("CASES", eng.FuncName(fn)+" fallback-only-when-not-found", okFb, upd[0].Pos(), "delete + create replace the update only when the sink did not find the old entry")
+		}
+	}
+	c.Expect("CASES", 13)
 
 	// ---------------------------------------------------------------- (4) PARAM-sink
 	for _, s := range []struct{ rel, typ string }{{"weed/replication/sink/filersink", "FilerSink"}, {"weed/replication/sink/localsink", "LocalSink"}} {
